@@ -1,7 +1,7 @@
 #!/bin/bash
 # usage: confirm_seed.sh <ID> <A|B>  — confirm a seeded change in its scratch worktree:
 #   existing suite passes with the change; the demo fails with it and passes without it.
-id="$1"; v="$2"; wt=/tmp/wt/$id; out=/tmp/seed-out/$id
+id="$1"; v="$2"; wt=${WT:-/tmp/wt}/$id; out=${OUT:-/tmp/seed-out}/$id
 cd "$wt" || exit 2
 git reset -q --hard; git clean -fdq -- src tests build.rs; git checkout -q --detach main
 if ! git apply --3way "$out/$v.diff" 2>/dev/null; then echo "$id/$v APPLY-FAILED"; git reset -q --hard; exit 3; fi
